@@ -110,7 +110,7 @@ class Book:
         parts = c.qualname.split(".")
         key = (parts[0], parts[1]) if len(parts) == 2 else (None, parts[0])
         if not getattr(c, "relational", False):
-            self.contracts[key] = c
+            self.contracts.setdefault(key, []).append(c)
         sf = self.file(c.file)
         node, cls = sf.find(c.qualname)
         c.node = node
@@ -143,12 +143,15 @@ class Book:
             return ["_%s%s" % (cls.lstrip("_"), name), name]
         return [name]
 
-    def lookup(self, cls, name):
-        if cls is None:
-            return self.contracts.get((None, name))
-        for c in self.mro(cls):
-            if (c, name) in self.contracts:
-                return self.contracts[(c, name)]
+    def lookup(self, cls, name, receiver=None, args=None):
+        """contract of cls.name (searching base classes).  Several contracts may be registered for one function (e.g. one per
+        fixed dimension); `applies(receiver, args)` selects among them."""
+        keys = [(None, name)] if cls is None else [(c, name) for c in self.mro(cls)]
+        for k in keys:
+            for c in self.contracts.get(k, []):
+                ap = getattr(c, "applies", None)
+                if ap is None or receiver is None or ap(receiver, args):
+                    return c
         return None
 
     def find_method(self, cls, name):
